@@ -101,7 +101,7 @@ def main():
     R.coverage["distinct_nontrivial"] = len({vp.digest(c["coq"]) for c in cs if c.get("nontrivial")})
     R.coverage["rule"] = ("one evaluation = one call of the real multi client (Instrument / NewMultiForT) against scripted nodes in a synctest bubble; "
                           "kinds: corpus, exhaustive (every outcome vector over {success, timeout, syncing, gateway, other error, hang[, rejected answer]} and every completion order: "
-                          "<= 2 primaries x <= 1 fallback at quick; <= 3 x <= 2 at thorough, where the fallback group is fully enumerated whenever no primary succeeds or hangs and for all <= 2 x <= 2 Plain runs), "
+                          "<= 2 primaries x <= 1 fallback at quick (full product, 3 styles); <= 3 x <= 2 at thorough: full product for Plain and Submit, for Pred the fallback group is fully enumerated whenever no primary succeeds or hangs and reduced to 4 groups otherwise), "
                           "cancel (a cancellation or deadline in every gap of the run's timeline, and an already cancelled context), random (up to 6 primaries, 4 fallbacks), ties (equal latencies); "
                           "styles: Plain = SlotsPerEpoch, Pred = NodeSyncing (success predicate), Submit = SubmitAttestations; "
                           "non-trivial = at least 2 primaries and the result is a fallback's answer, a node's error, or a primary's answer although another primary failed or hangs; distinct by the whole label")
